@@ -66,6 +66,8 @@ Apply(t, e) ==
     \* a connection was handed a permit that the (completed) revocation did not reach: it would serve requests for ever
     [] e.ev = "PermitMissedRevocation" -> No(<<"a connection accepted during revocation holds a permit that was never revoked; it is not closed after revocation">>)
     [] e.ev = "LateConnectAccepted" -> No(<<"connection attempt served after the stop signal">>)
+    \* the task that runs the accept loop panicked: whatever it still owed (listener release, stop signal) is never delivered
+    [] e.ev = "AcceptTaskPanicked" -> No(<<"the accept task panicked inside servlin; the stop signal it owes is never sent">>)
     \* ---- accept loop ----
     [] e.ev = "AccWait" -> IF t.accPc = "Top" /\ ~t.accHolds THEN Ok([t EXCEPT !.accPc = "Waiting"]) ELSE No(<<"AccWait at", t.accPc>>)
     [] e.ev = "TokenTake" -> IF t.accPc = "Waiting" /\ t.avail > 0
